@@ -31,14 +31,14 @@ def run(ctx):
                 "single feature removed; thorough: all 32 subsets + portable-simd on nightly); Trace_Pair requires the observations "
                 "of every build to equal the default build's; non-trivial = (build, history) pair with a non-bias score")
     sc = _score.generate(ctx, True, only=["F2-ngram-and-word", "F3-wide-windows", "F4-type-ngrams", "F6-mixed", "F7-type-gaps"])
-    stride = max(1, len(sc) // (240 if ctx.quick else 2000))
+    stride = max(1, len(sc) // (240 if ctx.quick else 500))
     score_h = []
     for fam, c in sc[::stride]:
         c = dict(c, runs=c["runs"][len(score_h) % 3::max(1, len(c["runs"]) // 10)][:12])   # short and long texts
         h = _score.to_history(len(score_h), fam, c)
         score_h.append(h)
     tg = C06.generate(ctx, True)
-    stride = max(1, len(tg) // (160 if ctx.quick else 1500))
+    stride = max(1, len(tg) // (160 if ctx.quick else 400))
     tag_h = []
     for fam, c in tg[::stride]:
         c = dict(c, runs=c["runs"][len(tag_h) % 3::max(1, len(c["runs"]) // 8)][:10])
@@ -53,7 +53,7 @@ def run(ctx):
         return out
     s_send, t_send = send(score_h), send(tag_h)
     # seeded random (model, texts) cases, generated once and replayed under every build
-    gen = vlib.record_events(ref_bin, "gencases", 500 if ctx.quick else 6000, ctx.seed, "C13-gencases")
+    gen = vlib.record_events(ref_bin, "gencases", 500 if ctx.quick else 1500, ctx.seed, "C13-gencases")
     for g in gen:
         wt = g.pop("with_tags")
         g["id"] = (2 if wt else 3) * 10 ** 6 + g["id"]
